@@ -74,11 +74,36 @@ def scan_writers(rep):
     return ("C14.writers: every statement that stores to `<x>._grad` (AST scan of the package) is under a contract", items, failures, "")
 
 
+def scan_backprop_callers(rep):
+    """[E] precondition of gru._backprop(var, grad) -- the one writer of `_grad` that stores its argument without a cast -- at every call site:
+    the gradient expression is syntactically `<e>.astype(<var>.dtype, ...)` or a call carrying `dtype=<var>.dtype` (NumPy's contract: such a call
+    returns an array of that dtype), with <var> the very expression passed as first argument.  Re-read from /repo on every run."""
+    items, failures = [], []
+    m = frontend.load_module("mygrad.nnet.layers.gru")
+    for n in ast.walk(m.tree):
+        if isinstance(n, ast.Call) and isinstance(n.func, ast.Name) and n.func.id == "_backprop" and len(n.args) == 2:
+            var, g = n.args
+            want = ast.dump(ast.Attribute(value=var, attr="dtype", ctx=ast.Load()))
+            ok = False
+            if isinstance(g, ast.Call):
+                if isinstance(g.func, ast.Attribute) and g.func.attr == "astype" and g.args and ast.dump(g.args[0]) == want:
+                    ok = True
+                if any(k.arg == "dtype" and ast.dump(k.value) == want for k in g.keywords):
+                    ok = True
+            where = f"mygrad.nnet.layers.gru:{n.lineno}: _backprop({ast.unparse(var)}, {ast.unparse(g)[:70]})"
+            items.append(where)
+            if not ok:
+                failures.append(dict(name=f"C14.writers.gru_backprop_caller_casts_to_the_variables_dtype[{ast.unparse(var)}]", input=dict(call=where), detail="the gradient handed to _backprop is not cast to the dtype of the tensor it is stored on", confirmed=False))
+    if not items:
+        rep.undecided.append(("C14.writers.gru_backprop_callers", "no call site of _backprop found (the writer moved?)"))
+    return ("C14.writers: every call site of gru._backprop casts the gradient to the variable's dtype", items, failures, "")
+
+
 def run(tier, seed):
     return run_property(
         "C14", tier, seed, level="other",
         deductive=[("c01_step", r"C14\.I1|no_other_exception"), ("c01_rb", r"result_shape|result_is_ndarray|result_rank"), ("c14_seed", r"^C14\.seed.*\.(I1|ones|value_of_g|rejected|no_backprop|collect|nonconstant|constant_receiver|stale_base_link_dropped)")],
-        enumerations=[scan_writers],
+        enumerations=[scan_writers, scan_backprop_callers],
         bounded=[("graph_bounded.py", ["--check", "C14"])],
         replay=_replay,
         trusted=["pyvc/graphdom.py NumPy axioms", "contract of reduce_broadcast (discharged in c01_rb)"],
